@@ -1,0 +1,565 @@
+// Verification hooks (compiled only with `--cfg seed_verif`).
+//
+// Hidden batch modes used by the correspondence checks in /verif: they read
+// hex-encoded sources from stdin, one per line, and print the token stream,
+// the syntax tree (with every stored position) or the observable behaviour of
+// a run, in a fixed, line-oriented format. Nothing here is reachable without
+// the cfg flag.
+
+use std::collections::BTreeMap;
+use std::io::BufRead;
+use std::io::Write;
+use std::panic;
+use std::path::Path;
+use std::sync::Arc;
+use std::sync::Mutex;
+
+use lalrpop_util::ParseError;
+
+use super::ast::*;
+use super::eval;
+use super::eval::builtins::Builtins;
+use super::eval::scope::ScopeStack;
+use super::eval::value;
+use super::eval::EvaluationContext;
+use super::lexer::LexError;
+use super::lexer::Lexer;
+use super::lexer::Token;
+use super::parser::ExprParser;
+use super::parser::ProgParser;
+
+pub fn dispatch() -> bool {
+    let args: Vec<String> = std::env::args().collect();
+    if args.len() < 2 {
+        return false;
+    }
+    match args[1].as_str() {
+        "--verif-tokens" => {
+            batch(|src, out| tokens(src, out));
+            true
+        },
+        "--verif-ast" => {
+            batch(|src, out| ast(src, out, false));
+            true
+        },
+        "--verif-ast-expr" => {
+            batch(|src, out| ast(src, out, true));
+            true
+        },
+        "--verif-run" => {
+            let nonce = args.get(2).cloned().unwrap_or_default();
+            let path = args.get(3).cloned().unwrap_or("t.sd".to_string());
+            run_batch(&nonce, &path);
+            true
+        },
+        _ => false,
+    }
+}
+
+fn unhex(s: &str) -> Option<Vec<u8>> {
+    let s = s.trim();
+    if s.len() % 2 != 0 {
+        return None;
+    }
+    let mut out = Vec::with_capacity(s.len() / 2);
+    let b = s.as_bytes();
+    let mut i = 0;
+    while i < b.len() {
+        let h = (b[i] as char).to_digit(16)?;
+        let l = (b[i + 1] as char).to_digit(16)?;
+        out.push((h * 16 + l) as u8);
+        i += 2;
+    }
+    Some(out)
+}
+
+fn hex(bytes: &[u8]) -> String {
+    let mut s = String::with_capacity(bytes.len() * 2 + 1);
+    s.push('x');
+    for b in bytes {
+        s += &format!("{b:02x}");
+    }
+    s
+}
+
+fn hexs(s: &str) -> String {
+    hex(s.as_bytes())
+}
+
+fn panic_msg(e: &Box<dyn std::any::Any + Send>) -> String {
+    if let Some(s) = e.downcast_ref::<&str>() {
+        (*s).to_string()
+    } else if let Some(s) = e.downcast_ref::<String>() {
+        s.clone()
+    } else {
+        "?".to_string()
+    }
+}
+
+fn batch<F>(f: F)
+where
+    F: Fn(&str, &mut String) + panic::RefUnwindSafe,
+{
+    panic::set_hook(Box::new(|_| {}));
+    let stdin = std::io::stdin();
+    let stdout = std::io::stdout();
+    let mut w = std::io::BufWriter::new(stdout.lock());
+    for line in stdin.lock().lines() {
+        let line = match line {
+            Ok(l) => l,
+            Err(_) => break,
+        };
+        let mut out = String::new();
+        match unhex(&line).map(String::from_utf8) {
+            Some(Ok(src)) => {
+                let r = panic::catch_unwind(|| {
+                    let mut o = String::new();
+                    f(&src, &mut o);
+                    o
+                });
+                match r {
+                    Ok(o) => out = o,
+                    Err(e) => {
+                        out += &format!("PANIC {}\n", hexs(&panic_msg(&e)));
+                    },
+                }
+            },
+            _ => {
+                out += "BADINPUT\n";
+            },
+        }
+        out += "END\n";
+        let _ = w.write_all(out.as_bytes());
+    }
+    let _ = w.flush();
+}
+
+fn loc(l: &(usize, usize)) -> String {
+    format!("{}:{}", l.0, l.1)
+}
+
+fn token_fields(t: &Token) -> String {
+    match t {
+        Token::Ident(s) => format!("Ident {}", hexs(s)),
+        Token::IntLiteral(n) => format!("IntLiteral {n}"),
+        Token::StrLiteral(s) => format!("StrLiteral {}", hexs(s)),
+        Token::InterpStrLiteral(s, slots) => {
+            let ss: Vec<String> =
+                slots.iter().map(|(a, b)| format!("{a}-{b}")).collect();
+            format!("InterpStrLiteral {} [{}]", hexs(s), ss.join(" "))
+        },
+        t => format!("{t:?}"),
+    }
+}
+
+fn lex_error_fields(e: &LexError) -> String {
+    match e {
+        LexError::Unexpected(l, c) =>
+            format!("Unexpected {} {}", loc(l), hexs(&c.to_string())),
+        LexError::IntOverflow(l, raw) =>
+            format!("IntOverflow {} {}", loc(l), hexs(raw)),
+        LexError::UnescapedDollar(l) =>
+            format!("UnescapedDollar {} x", loc(l)),
+        LexError::InvalidInterpolationStart(l, c) =>
+            format!(
+                "InvalidInterpolationStart {} {}",
+                loc(l),
+                hexs(&c.to_string()),
+            ),
+        LexError::InvalidEscapeChar(l, c) =>
+            format!("InvalidEscapeChar {} {}", loc(l), hexs(&c.to_string())),
+        LexError::InvalidHexChar(l, c) =>
+            format!("InvalidHexChar {} {}", loc(l), hexs(&c.to_string())),
+    }
+}
+
+fn tokens(src: &str, out: &mut String) {
+    for item in Lexer::new(src) {
+        match item {
+            Ok((s, t, e)) => {
+                *out += &format!(
+                    "T {} {} {}\n",
+                    loc(&s),
+                    loc(&e),
+                    token_fields(&t),
+                );
+            },
+            Err(e) => {
+                *out += &format!("E {}\n", lex_error_fields(&e));
+                break;
+            },
+        }
+    }
+}
+
+fn parse_error_fields(e: &ParseError<(usize, usize), Token, LexError>)
+    -> String
+{
+    match e {
+        ParseError::InvalidToken{location} =>
+            format!("ERR InvalidToken {}", loc(location)),
+        ParseError::UnrecognizedEof{location, ..} =>
+            format!("ERR UnexpectedEof {}", loc(location)),
+        ParseError::UnrecognizedToken{token: (l, t, _), ..} =>
+            format!(
+                "ERR UnexpectedToken {} {}",
+                loc(l),
+                hexs(&super::render_token(t.clone())),
+            ),
+        ParseError::ExtraToken{token: (l, t, _)} =>
+            format!("ERR ExtraToken {} {}", loc(l), hexs(&format!("{t:?}"))),
+        ParseError::User{error} =>
+            format!("ERR Lex {}", lex_error_fields(error)),
+    }
+}
+
+fn ast(src: &str, out: &mut String, expr_only: bool) {
+    if expr_only {
+        let mut lexer = Lexer::new(src);
+        match ExprParser::new().parse(&mut lexer) {
+            Ok(e) => {
+                ser_expr(&e, out);
+                *out += "\n";
+            },
+            Err(e) => {
+                *out += &parse_error_fields(&e);
+                *out += "\n";
+            },
+        }
+        return;
+    }
+    match ProgParser::new().parse(Lexer::new(src)) {
+        Ok(Prog::Body{stmts}) => {
+            *out += "(Prog ";
+            ser_block(&stmts, out);
+            *out += ")\n";
+        },
+        Err(e) => {
+            *out += &parse_error_fields(&e);
+            *out += "\n";
+        },
+    }
+}
+
+fn ser_block(stmts: &Block, out: &mut String) {
+    *out += "[";
+    for (i, s) in stmts.iter().enumerate() {
+        if i > 0 {
+            *out += " ";
+        }
+        ser_stmt(s, out);
+    }
+    *out += "]";
+}
+
+fn ser_exprs(es: &[Expr], out: &mut String) {
+    *out += "[";
+    for (i, e) in es.iter().enumerate() {
+        if i > 0 {
+            *out += " ";
+        }
+        ser_expr(e, out);
+    }
+    *out += "]";
+}
+
+fn ser_items(items: &[ListItem], out: &mut String) {
+    *out += "[";
+    for (i, ListItem{expr, is_spread}) in items.iter().enumerate() {
+        if i > 0 {
+            *out += " ";
+        }
+        *out += "(Item ";
+        ser_expr(expr, out);
+        *out += &format!(" {is_spread})");
+    }
+    *out += "]";
+}
+
+fn ser_opt_expr(e: &Option<Box<Expr>>, out: &mut String) {
+    match e {
+        Some(e) => ser_expr(e, out),
+        None => *out += "none",
+    }
+}
+
+fn ser_stmt(s: &Stmt, out: &mut String) {
+    match s {
+        Stmt::Block{block} => {
+            *out += "(Block ";
+            ser_block(block, out);
+            *out += ")";
+        },
+        Stmt::Expr{expr} => {
+            *out += "(Expr ";
+            ser_expr(expr, out);
+            *out += ")";
+        },
+        Stmt::Declare{lhs, rhs} => {
+            *out += "(Declare ";
+            ser_expr(lhs, out);
+            *out += " ";
+            ser_expr(rhs, out);
+            *out += ")";
+        },
+        Stmt::Assign{lhs, rhs} => {
+            *out += "(Assign ";
+            ser_expr(lhs, out);
+            *out += " ";
+            ser_expr(rhs, out);
+            *out += ")";
+        },
+        Stmt::OpAssign{lhs, op, op_loc, rhs} => {
+            *out += "(OpAssign ";
+            ser_expr(lhs, out);
+            *out += &format!(" {op:?} @{} ", loc(op_loc));
+            ser_expr(rhs, out);
+            *out += ")";
+        },
+        Stmt::If{branches, else_stmts} => {
+            *out += "(If [";
+            for (i, Branch{cond, stmts}) in branches.iter().enumerate() {
+                if i > 0 {
+                    *out += " ";
+                }
+                *out += "(Branch ";
+                ser_expr(cond, out);
+                *out += " ";
+                ser_block(stmts, out);
+                *out += ")";
+            }
+            *out += "] ";
+            match else_stmts {
+                Some(b) => ser_block(b, out),
+                None => *out += "none",
+            }
+            *out += ")";
+        },
+        Stmt::While{cond, stmts} => {
+            *out += "(While ";
+            ser_expr(cond, out);
+            *out += " ";
+            ser_block(stmts, out);
+            *out += ")";
+        },
+        Stmt::For{lhs, iter, stmts} => {
+            *out += "(For ";
+            ser_expr(lhs, out);
+            *out += " ";
+            ser_expr(iter, out);
+            *out += " ";
+            ser_block(stmts, out);
+            *out += ")";
+        },
+        Stmt::Break{loc: l} => {
+            *out += &format!("(Break @{})", loc(l));
+        },
+        Stmt::Continue{loc: l} => {
+            *out += &format!("(Continue @{})", loc(l));
+        },
+        Stmt::Func{name: (name, l), args, collect_args, stmts} => {
+            *out += &format!("(FuncStmt {} @{} ", hexs(name), loc(l));
+            ser_exprs(args, out);
+            *out += &format!(" {collect_args} ");
+            ser_block(stmts, out);
+            *out += ")";
+        },
+        Stmt::Return{loc: l, expr} => {
+            *out += &format!("(Return @{} ", loc(l));
+            ser_expr(expr, out);
+            *out += ")";
+        },
+    }
+}
+
+fn ser_expr(e: &Expr, out: &mut String) {
+    let (raw, l) = e;
+    *out += &format!("(E {} ", loc(l));
+    match raw {
+        RawExpr::Null => *out += "Null",
+        RawExpr::Bool{b} => *out += &format!("(Bool {b})"),
+        RawExpr::Int{n} => *out += &format!("(Int {n})"),
+        RawExpr::Str{s, interpolation_slots} => {
+            *out += &format!("(Str {} ", hexs(s));
+            match interpolation_slots {
+                None => *out += "none",
+                Some(slots) => {
+                    let ss: Vec<String> =
+                        slots.iter().map(|(a, b)| format!("{a}-{b}")).collect();
+                    *out += &format!("[{}]", ss.join(" "));
+                },
+            }
+            *out += ")";
+        },
+        RawExpr::Var{name} => *out += &format!("(Var {})", hexs(name)),
+        RawExpr::BinaryOp{op, op_loc, lhs, rhs} => {
+            *out += &format!("(BinaryOp {op:?} @{} ", loc(op_loc));
+            ser_expr(lhs, out);
+            *out += " ";
+            ser_expr(rhs, out);
+            *out += ")";
+        },
+        RawExpr::List{items, collect} => {
+            *out += "(List ";
+            ser_items(items, out);
+            *out += &format!(" {collect})");
+        },
+        RawExpr::Index{expr, location} => {
+            *out += "(Index ";
+            ser_expr(expr, out);
+            *out += " ";
+            ser_expr(location, out);
+            *out += ")";
+        },
+        RawExpr::RangeIndex{expr, start, end} => {
+            *out += "(RangeIndex ";
+            ser_expr(expr, out);
+            *out += " ";
+            ser_opt_expr(start, out);
+            *out += " ";
+            ser_opt_expr(end, out);
+            *out += ")";
+        },
+        RawExpr::Range{start, end} => {
+            *out += "(Range ";
+            ser_expr(start, out);
+            *out += " ";
+            ser_expr(end, out);
+            *out += ")";
+        },
+        RawExpr::Object{props} => {
+            *out += "(Object [";
+            for (i, p) in props.iter().enumerate() {
+                if i > 0 {
+                    *out += " ";
+                }
+                match p {
+                    PropItem::Pair{name, value} => {
+                        *out += "(Pair ";
+                        ser_expr(name, out);
+                        *out += " ";
+                        ser_expr(value, out);
+                        *out += ")";
+                    },
+                    PropItem::Single{expr, is_spread, collect} => {
+                        *out += "(Single ";
+                        ser_expr(expr, out);
+                        *out += &format!(" {is_spread} {collect})");
+                    },
+                }
+            }
+            *out += "])";
+        },
+        RawExpr::Prop{expr, name, type_prop} => {
+            *out += "(Prop ";
+            ser_expr(expr, out);
+            *out += &format!(" {} {type_prop})", hexs(name));
+        },
+        RawExpr::Func{args, collect_args, stmts} => {
+            *out += "(Func ";
+            ser_exprs(args, out);
+            *out += &format!(" {collect_args} ");
+            ser_block(stmts, out);
+            *out += ")";
+        },
+        RawExpr::Call{func, args} => {
+            *out += "(Call ";
+            ser_expr(func, out);
+            *out += " ";
+            ser_items(args, out);
+            *out += ")";
+        },
+    }
+    *out += ")";
+}
+
+// `run_one` mirrors `run` and the message rendering of `main` for a source
+// held in memory. Results obtained through it are only believed after being
+// reproduced through the unmodified command-line path.
+fn run_one(path: &str, src: &str) -> Result<(), String> {
+    let global_bindings = vec![
+        (
+            RawExpr::Var{name: "print".to_string()},
+            value::new_built_in_func(
+                "print".to_string(),
+                super::fns::print,
+            ),
+        ),
+    ];
+
+    let mut scopes = ScopeStack::new(vec![]);
+    let lexer = Lexer::new(src);
+    let ast =
+        match ProgParser::new().parse(lexer) {
+            Ok(v) => v,
+            Err(e) => {
+                let ((ln, ch), msg) = super::render_parse_error(e);
+
+                return Err(format!("{ln}:{ch}: {msg}"));
+            },
+        };
+
+    let r = eval::eval_prog(
+        &EvaluationContext{
+            builtins: &Builtins{
+                std: Arc::new(Mutex::new(BTreeMap::new())),
+                type_functions: super::type_functions::type_functions(),
+            },
+            cur_script_dir: std::path::PathBuf::from("."),
+        },
+        &mut scopes,
+        global_bindings,
+        &ast,
+    );
+
+    match r {
+        Ok(()) => Ok(()),
+        Err(source) => {
+            let st =
+                super::eval_err_to_stacktrace(Path::new(path), None, source);
+
+            let mut rendered_stacktrace = String::new();
+            if !st.stacktrace.is_empty() {
+                rendered_stacktrace = format!(
+                    "\nStacktrace:\n  {}",
+                    st.stacktrace.join("\n  "),
+                );
+            }
+
+            Err(format!("{}{}", st.msg, rendered_stacktrace))
+        },
+    }
+}
+
+fn run_batch(nonce: &str, path: &str) {
+    panic::set_hook(Box::new(|_| {}));
+    let stdin = std::io::stdin();
+    for (i, line) in stdin.lock().lines().enumerate() {
+        let line = match line {
+            Ok(l) => l,
+            Err(_) => break,
+        };
+        println!("BEGIN {nonce} {i}");
+        match unhex(&line).map(String::from_utf8) {
+            Some(Ok(src)) => {
+                let p = path.to_string();
+                let r = panic::catch_unwind(move || run_one(&p, &src));
+                match r {
+                    Ok(Ok(())) => println!("STATUS {nonce} 0 x"),
+                    Ok(Err(msg)) => {
+                        let full = format!("{path}:{msg}\n");
+                        println!("STATUS {nonce} 103 {}", hexs(&full));
+                    },
+                    Err(e) => {
+                        println!(
+                            "STATUS {nonce} 101 {}",
+                            hexs(&panic_msg(&e)),
+                        );
+                    },
+                }
+            },
+            _ => println!("STATUS {nonce} badinput x"),
+        }
+        println!("END {nonce} {i}");
+    }
+}
